@@ -165,7 +165,23 @@ def analyse(src: Source) -> List[Report]:
                            "in-place arithmetic on a leaf velocity: the speed of the chain is no longer the initial speed")
                     continue
                 kind = velocity_source(prog, h, ref.fn, value)
-                rep.ob("R7.4-velocity-provenance", kind is not None, loc, stmt,
+                verdict_ = kind is not None
+                if kind is None:
+                    # a value that is (a copy of) a parameter of a helper: judged at the call sites of the helper in this handler
+                    core_ = value
+                    while isinstance(core_, ast.Call) and ((isinstance(core_.func, ast.Attribute) and core_.func.attr == "copy" and not core_.args) or
+                                                           (isinstance(core_.func, ast.Name) and core_.func.id in ("copy", "list") and len(core_.args) == 1)):
+                        core_ = core_.func.value if isinstance(core_.func, ast.Attribute) else core_.args[0]
+                    ps_ = [a_.arg for a_ in ref.fn.args.args if a_.arg not in ("self", "cls")]
+                    if isinstance(core_, ast.Name) and core_.id in ps_ and ref.fn.name not in ("send_out_state", "send_event_time"):
+                        idx_ = ps_.index(core_.id)
+                        sites_ = [(r2, c_) for r2 in facts.out_closure for c_ in ast.walk(r2.fn)
+                                  if isinstance(c_, ast.Call) and isinstance(c_.func, ast.Attribute) and c_.func.attr == ref.fn.name
+                                  and isinstance(c_.func.value, ast.Name) and c_.func.value.id == "self" and len(c_.args) > idx_]
+                        kinds_ = [velocity_source(prog, h, r2.fn, c_.args[idx_]) for r2, c_ in sites_]
+                        verdict_ = True if sites_ and all(k_ is not None for k_ in kinds_) else None
+                        kind = kinds_[0] if verdict_ else None
+                rep.ob("R7.4-velocity-provenance", verdict_, loc, stmt,
                        f"the value assigned to a velocity is not None, another unit's velocity, a zero vector, the "
                        f"configured initial velocity or a _get_new_velocity of a unit velocity: `{norm(value)}`")
                 if kind and kind.startswith("rotated:"):
@@ -228,6 +244,15 @@ def analyse(src: Source) -> List[Report]:
     # by that handler's time-slicing: the extraction must hand out copies (shared with C13)
     from .c13 import check_extraction_copies
     check_extraction_copies(prog, rep)
+    # "every position lies in the box" from the first configuration on: the random node creators wrap what they generate (shared with C12)
+    from .c12 import check_creators, check_commit_routine
+    # only one chain moves: the induced velocity of a composite object is committed exactly (weights, tolerant rest test), otherwise
+    # an object whose point masses all rest keeps moving
+    try:
+        check_commit_routine(prog, rep)
+    except IdiomNotRecognised as e_:
+        rep.ob("R12.1-commit-routine", None, Loc("jellyfysh/event_handler/abstracts/abstracts.py", 0, "LeavesEventHandler"), "commit routine", str(e_))
+    check_creators(prog, rep)
     from .c06 import HEAP_C, check_c_comparisons, check_heap_scheduler, check_list_scheduler
     unit = CUnit(src, HEAP_C)
     check_c_comparisons(unit, rep)
